@@ -64,7 +64,7 @@ add("C09", "proof",
 
 add("C01", "other",
     "Deductive obligations (all inputs) on the real signing and verification paths: memory safety for every length, signature layout (length 2180+32h, index field = consumed index), index automaton, frames; plus a bounded, exhaustive-over-indices evaluation of the BDS traversal invariant on the REAL traversal code with node labels (every index of every even height 4..20 in the quick tier, ..24 thorough, ..30 with VERIF_FULL=1; only hashH/genLeafWOTS bodies are spliced mechanically on each run) and, with the real hashes, sign->verify at every index of height 4 (6 thorough) for all three hash functions.",
-    "Level 'other' = deductive parts + bounded stand-in. The traversal invariant is NOT proved for symbolic height. The functional WOTS+/L-tree/Merkle-fold contracts are discharged on the verification side (see C04) and for wotsSign / wOTSPKGen on the signing side, with the chain composition lemma; the lemma functions composing them are discharged for all inputs: 'the public key recovered from a WOTS+ signature of any message is the generated one' (verifLemmaWotsSignThenRecover) and 'the leaf the verifier recomputes from a signature equals the leaf genLeafWOTS computes for that address' (verifLemmaLeafFromSignature, genLeafWOTS under a functional contract). What remains bounded is the BDS part: the authentication path handed out is the sibling path and the stored root is the Merkle root. Evidence lists the bounded runs under 'bounded', outside obligations/discharged.",
+    "Level 'other' = deductive parts + bounded stand-in. The traversal invariant is NOT proved for symbolic height. The functional WOTS+/L-tree/Merkle-fold contracts are discharged on the verification side (see C04) and for wotsSign / wOTSPKGen on the signing side, with the chain composition lemma; the lemma functions composing them are discharged for all inputs: 'the public key recovered from a WOTS+ signature of any message is the generated one' (verifLemmaWotsSignThenRecover) and 'the leaf the verifier recomputes from a signature equals the leaf genLeafWOTS computes for that address' (verifLemmaLeafFromSignature, genLeafWOTS under a functional contract). What remains bounded is the BDS part: the authentication path handed out is the sibling path and the stored root is the Merkle root. Of the five BDS helpers, the bodies of treeHashMinHeightOnStack and treeHashUpdate are verified (memory safety, stack bookkeeping, frame, termination) under the local stack discipline as precondition; that precondition is not proved at their call sites (bdsTreeHashUpdate, bdsRound, treeHashSetup remain trusted) but is observed in every state of the label run. Evidence lists the bounded runs under 'bounded', outside obligations/discharged.",
     "contract-based deductive verification of the real code for safety/layout/index clauses; bounded run-time evaluation of the stated traversal contract where no inductive proof is attempted",
     "DESIGN.md section 4 C01")
 add("C08", "other",
